@@ -571,6 +571,42 @@ fn locate(bases: &Bases, seed: u64, thorough: bool, idx: u64) -> Option<(String,
     None
 }
 
+/// In-process run of every `stride`-th mutant (used under valgrind memcheck, where the interesting
+/// oracle is the tool itself).
+pub fn sample(seed: u64, stride: u64) -> Stats {
+    let mut st = Stats::default();
+    let Some(bases) = build_bases() else {
+        st.inconclusive.push("cannot build bases".into());
+        return st;
+    };
+    let mut h = Helpers {
+        cc: Covercrypt::default(),
+        usks: bases.usks.iter().filter_map(|b| UserSecretKey::deserialize(b).ok()).collect(),
+        encs: bases.encs.iter().filter_map(|b| XEnc::deserialize(b).ok()).collect(),
+    };
+    let mut idx = 0u64;
+    for (kind, label, base) in &bases.objs {
+        for (op, bytes) in mutants(kind, base, seed, false) {
+            idx += 1;
+            if idx % stride != seed % stride {
+                continue;
+            }
+            let problems = run_mutant(kind, &bytes, &h, &mut st);
+            if problems.iter().any(|p| p.0.starts_with("panic")) {
+                h.cc = Covercrypt::default();
+            }
+            st.shapes.insert(fnv(format!("{kind}|{label}|{}", op_class(&op)).as_bytes()));
+            for (sig, detail) in problems {
+                let sig = if sig.starts_with("panic") { format!("{sig}:{}", msg_class(&detail)) } else { sig };
+                if !st.findings.iter().any(|f| f.signature == format!("C14:{sig}")) {
+                    st.findings.push(Finding { prop: "C14".into(), signature: format!("C14:{sig}"), detail: format!("{kind}/{label} {op}: {detail}"), replay: json!({"monitor": "c14", "kind": kind, "op": op}) });
+                }
+            }
+        }
+    }
+    st
+}
+
 /// Parent: orchestrates the worker processes.
 pub fn run(tier: &str, seed: u64, nshards: usize, scratch: &Path, single_input: Option<Value>) -> Stats {
     let mut st = Stats::default();
